@@ -35,3 +35,34 @@ Proof.
   destruct (retval (C_getshort.run 1 [buf p; buf (p + 1)] 0)) as [v|]; [|discriminate].
   apply Z.eqb_eq in H. rewrite H. reflexivity.
 Qed.
+
+(* ---- token822.c needspace() and atomok(): finite domains, by sweep ---- *)
+(* token types as in token822.h: 0 none, 1 atom, 2 quote, 3 literal, 4 comment, 5 left, 6 right, 7 at, 8 comma, 9 semi, 10 colon, 11 dot *)
+Definition class_of_type (t : nat) : tclass :=
+  match t with
+  | 0 => KNone | 1 | 2 | 3 | 4 => KWord | 5 => KLeft | 8 => KComma | 10 => KColon | _ => KOther
+  end%nat.
+Lemma needspace_sweep : forallb (fun a => forallb (fun b =>
+    match retval (C_needspace.run 1 (Z.of_nat a) (Z.of_nat b)) with
+    | Some v => v =? b2z (Tok.needspace (class_of_type a) (class_of_type b)) | None => false end) (seq 0 12)) (seq 0 12) = true.
+Proof. vm_compute. reflexivity. Qed.
+Theorem gen_needspace_eq : forall a b : nat, (a < 12)%nat -> (b < 12)%nat ->
+  retval (C_needspace.run 1 (Z.of_nat a) (Z.of_nat b)) = Some (b2z (Tok.needspace (class_of_type a) (class_of_type b))).
+Proof.
+  intros a b Ha Hb. pose proof needspace_sweep as H. rewrite forallb_forall in H.
+  assert (Ia : In a (seq 0 12)) by (apply in_seq; lia). specialize (H _ Ia). rewrite forallb_forall in H.
+  assert (Ib : In b (seq 0 12)) by (apply in_seq; lia). specialize (H _ Ib).
+  destruct (retval (C_needspace.run 1 (Z.of_nat a) (Z.of_nat b))) as [v|]; [|discriminate].
+  apply Z.eqb_eq in H. rewrite H. reflexivity.
+Qed.
+Lemma atomok_sweep : forallb (fun n => match retval (C_atomok.run 1 (wraps 8 (Z.of_nat n))) with
+                                      | Some v => v =? b2z (Tok.atomok (N.of_nat n)) | None => false end) (seq 0 256) = true.
+Proof. vm_compute. reflexivity. Qed.
+Theorem gen_atomok_eq : forall c : N, (c < 256)%N ->
+  retval (C_atomok.run 1 (wraps 8 (Z.of_N c))) = Some (b2z (Tok.atomok c)).
+Proof.
+  intros c Hc. pose proof atomok_sweep as H. rewrite forallb_forall in H.
+  assert (I : In (N.to_nat c) (seq 0 256)) by (apply in_seq; lia). specialize (H _ I). rewrite N2Nat.id, N_nat_Z in H.
+  destruct (retval (C_atomok.run 1 (wraps 8 (Z.of_N c)))) as [v|]; [|discriminate].
+  apply Z.eqb_eq in H. rewrite H. reflexivity.
+Qed.
